@@ -1,2 +1,53 @@
-(* placeholder while the proofs are being written: replaced before the property is registered *)
-Theorem C04_pending : True. Proof. exact I. Qed.
+(* C04 — user data is rendered from its content or preserved byte-for-byte as a hex dump. *)
+From Coq Require Import List NArith ZArith Bool Arith.
+From PV Require Import Base.Bytes Base.Lit Base.Json Base.PelTypes Model.Hexdump Model.Parse Model.Render Spec.Encode Gen.Tables
+                       Proofs.HexdumpRoundtrip Proofs.RenderFacts Proofs.UdFacts.
+Import ListNotations.
+Open Scope N_scope.
+
+Theorem C04_tables_agree :
+  UserDataFormat_json = 1 /\ UserDataFormat_cbor = 2 /\ UserDataFormat_text = 3 /\ UserDataFormat_custom = 4 /\
+  Gen.Tables.DEFAULT_LINE_FORMAT = default_fmt.
+Proof. repeat split; vm_compute; reflexivity. Qed.
+Print Assumptions C04_tables_agree.
+
+(* whenever a section has no decoder - parser modules disabled, no module, a module that cannot be imported, one that raises
+   or returns nothing, or a built-in sub-type without a renderer - the section appears and its "Data" parses back to the payload *)
+Theorem C04_fallback_lossless : forall e c h cr d, fallback e c cr (h_comp h) (h_sub h) (h_ver h) d ->
+  Forall (fun b => b < 256) d -> N.of_nat (length d) + 16 <= 2 ^ 32 ->
+  exists o, render_ud e c h cr d = Some o /\ carries_dump o d.
+Proof. exact ud_fallback_dump. Qed.
+Print Assumptions C04_fallback_lossless.
+
+(* an unrecognised section type is hex-dumped losslessly too *)
+Theorem C04_unrecognised_lossless : forall h d, Forall (fun b => b < 256) d -> N.of_nat (length d) + 16 <= 2 ^ 32 ->
+  carries_dump (render_other h d) d.
+Proof. exact other_dump. Qed.
+Print Assumptions C04_unrecognised_lossless.
+
+(* a parser that failed leaves an error note next to the dump *)
+Theorem C04_error_note : forall e c h cr d, parser_failed e c cr (h_comp h) (h_sub h) (h_ver h) d ->
+  exists o er, render_ud e c h cr d = Some o /\ obj_get o (L "Error") = Some (JStr er).
+Proof. exact ud_error_note. Qed.
+Print Assumptions C04_error_note.
+
+(* built-in text: the lines of the text with only non-printable characters replaced *)
+Theorem C04_builtin_text : forall e c h cr txt,
+  (is_bmc cr && (h_comp h =? 8192)) = true -> h_sub h = UserDataFormat_text ->
+  Forall (fun x => x < 128) txt -> strip_ws txt = txt -> rstrip_nul txt = txt ->
+  render_ud e c h cr txt = Some (obj_set (base_fields e h cr (L "Created by")) (L "Data") (jstrs (spec_lines txt))).
+Proof. exact builtin_text_spec. Qed.
+Print Assumptions C04_builtin_text.
+
+(* built-in JSON: exactly the section's text is what json.loads is applied to (the harness applies Python's json.loads to the
+   marked text: an object is merged into the section, any other value is shown under "Data") *)
+Theorem C04_builtin_json : forall e c h cr txt,
+  (is_bmc cr && (h_comp h =? 8192)) = true -> h_sub h = UserDataFormat_json ->
+  Forall (fun x => x < 128) txt -> strip_ws txt = txt -> rstrip_nul txt = txt ->
+  render_ud e c h cr txt =
+    Some (base_fields e h cr (L "Created by") ++ [(L "@loads", JStr txt); (L "@fallback", jstrs (hexdump txt))]).
+Proof. exact builtin_json_spec. Qed.
+Print Assumptions C04_builtin_json.
+
+Example C04_example : spec_lines (L "ab" ++ [10; 1] ++ L "c" ++ [10]) = [L "ab"; L ".c"].
+Proof. vm_compute. reflexivity. Qed.
